@@ -19,6 +19,7 @@ import (
 	"seehuhn.de/go/sfnt/cmap"
 	"seehuhn.de/go/sfnt/glyf"
 	"seehuhn.de/go/sfnt/glyph"
+	"seehuhn.de/go/sfnt/mac"
 	"seehuhn.de/go/sfnt/opentype/coverage"
 	"seehuhn.de/go/sfnt/opentype/gtab"
 	"seehuhn.de/go/sfnt/os2"
@@ -145,7 +146,55 @@ func gnFont(f Fields) (*sfnt.Font, string) {
 	} else {
 		font.Outlines = &glyf.Outlines{Glyphs: make(glyf.Glyphs, n), Names: nms}
 	}
-	if f["cmap"] != "-" {
+	if f["mac"] != "" && f["cmap"] != "-" {
+		// the ONLY cmap subtable is the Macintosh one (platform 1, encoding 0); `cmap=` lists
+		// MacRoman codes (< 256); the model translates them with the regenerated MacRoman table.
+		// No round-trip check here: the decoding of this subtable is part of what is compared.
+		var data []byte
+		codes := gnPairs(f["cmap"], ":")
+		switch f["mac"] {
+		case "0":
+			m := &cmap.Format0{}
+			for _, p := range codes {
+				m.Data[p[0]] = byte(p[1])
+			}
+			data = m.Encode(0)
+		case "4":
+			m := cmap.Format4{}
+			for _, p := range codes {
+				m[uint16(p[0])] = glyph.ID(p[1])
+			}
+			data = m.Encode(0)
+		default: // format 6: trimmed table from the lowest to the highest code
+			lo, hi := 256, 0
+			byCode := map[int]int{}
+			for _, p := range codes {
+				byCode[p[0]] = p[1]
+				lo, hi = min(lo, p[0]), max(hi, p[0])
+			}
+			if len(codes) == 0 {
+				lo, hi = 0, -1
+			}
+			cnt := hi - lo + 1
+			L := 10 + 2*cnt
+			data = []byte{0, 6, byte(L >> 8), byte(L), 0, 0, byte(lo >> 8), byte(lo), byte(cnt >> 8), byte(cnt)}
+			for c := lo; c <= hi; c++ {
+				data = append(data, byte(byCode[c]>>8), byte(byCode[c]))
+			}
+		}
+		font.CMapTable = cmap.Table{cmap.Key{PlatformID: 1, EncodingID: 0}: data}
+		for _, t := range strings.Split(f["fu"], ",") {
+			if t == "" {
+				continue
+			}
+			q := strings.Split(t, ":")
+			var c int
+			fmt.Sscan(q[0], &c)
+			if names.FromUnicode(string(rune(c))) != string(mustHex(q[1])) {
+				return nil, "case:fu-stale"
+			}
+		}
+	} else if f["cmap"] != "-" {
 		want := map[int]int{}
 		lo, hi, big := -1, 0, false
 		for _, p := range gnPairs(f["cmap"], ":") {
@@ -459,6 +508,30 @@ func init() {
 			return "ok"
 		}))
 	}
+	// direct check on the real code: asking again returns the same names — 30 calls of
+	// MakeGlyphNames on the same font, and EnsureGlyphNames on 10 freshly built copies
+	ops["gnames.stable"] = func(f Fields) string {
+		font, bad := gnFont(f)
+		if bad != "" {
+			return bad
+		}
+		return canonPanic(guard(func() string {
+			first := gnHexNames(font.MakeGlyphNames())
+			for k := 1; k < 30; k++ {
+				if again := gnHexNames(font.MakeGlyphNames()); again != first {
+					return fmt.Sprintf("differs:call=%d:%s:%s", k, first, again)
+				}
+			}
+			for k := 0; k < 10; k++ {
+				fresh, _ := gnFont(f)
+				fresh.EnsureGlyphNames()
+				if inst := gnHexNames(gnInstalled(fresh)); inst != first {
+					return fmt.Sprintf("installed-differs:copy=%d:%s:%s", k, first, inst)
+				}
+			}
+			return "ok"
+		}))
+	}
 	yes := func(f Fields) string { return "yes" }
 	ops["gnames.complete"] = yes
 	ops["gnames.unique"] = yes
@@ -685,6 +758,9 @@ func gnCase(c *Ctx, n int, oob bool) {
 // gnEmit records the verdict case for MakeGlyphNames and the direct predicates on its real output;
 // with ensure also EnsureGlyphNames, the predicates on the installed names and the read-back.
 func gnEmit(c *Ctx, kind string, n int, nms []string, line string, nontriv, ensure bool) {
+	if parseFields(line)["gsub"] != "" && parseFields(line)["n"] != "0" {
+		c.Case(Direct, "gnames.stable", line, nontriv)
+	}
 	out := c.Case(Verdict, "gnames.make", line, nontriv)
 	switch {
 	case out == "panic":
@@ -949,6 +1025,128 @@ func gnCmapEdgeFamily(c *Ctx) {
 	}
 	c.Stat("stream", "cmap-first-and-last-code")
 	line := fmt.Sprintf("kind=%s n=%d nn=%d names=%s cmap=%s%s fu=%s gsub=", kind, n, len(nms), gnHexNames(nms), strings.Join(p, ","), cfmt, strings.Join(q, ","))
+	if kind == "cff" && len(nms) != n {
+		return
+	}
+	if _, bad := gnFont(parseFields(line)); bad != "" {
+		c.Stat("case-rejected", bad)
+		return
+	}
+	gnEmit(c, kind, n, nms, line, true, r.Chance(1, 4))
+}
+
+// gnOrderFamily: GSUB 1.2 / 3.1 / 4.1 subtables where the ORDER in which the covered glyphs are
+// visited decides the outcome: two covered glyphs with the same unnamed target, chains through an
+// unnamed intermediate glyph, ligature sets sharing an output.
+func gnOrderFamily(c *Ctx) {
+	r := c.Rng
+	n := r.Range(6, 10)
+	kind := Pick(r, []string{"glyf", "cff"})
+	nms := make([]string, n)
+	nms[0] = ".notdef"
+	nms[1], nms[2] = "A", "a"
+	if r.Chance(1, 3) {
+		nms[3] = "b"
+	}
+	var subs []string
+	for k := r.Range(1, 2); k > 0; k-- {
+		t := r.Range(4, n-1)
+		switch r.Intn(6) {
+		case 0: // two sources, one target
+			subs = append(subs, fmt.Sprintf("s2:2-1,1-0:%d,%d", t, t))
+			c.Stat("order-family", "gsub1.2-same-target")
+		case 1: // chain through an unnamed intermediate, ascending and descending
+			u := r.Range(4, n-1)
+			for u == t {
+				u = r.Range(4, n-1)
+			}
+			lo, hi := min(t, u), max(t, u)
+			if r.Bool() {
+				subs = append(subs, fmt.Sprintf("s2:%d-1,1-0:%d,%d", lo, lo, hi)) // 1->lo, lo->hi
+			} else {
+				subs = append(subs, fmt.Sprintf("s2:%d-1,1-0:%d,%d", hi, hi, lo)) // 1->hi, hi->lo
+			}
+			c.Stat("order-family", "gsub1.2-chain")
+		case 2:
+			subs = append(subs, fmt.Sprintf("al:1-0,2-1:%d,%d|%d|", t, r.Range(4, n-1), t))
+			c.Stat("order-family", "gsub3.1-same-target")
+		case 3:
+			subs = append(subs, fmt.Sprintf("lg:1-0,2-1:2>%d|1>%d|", t, t))
+			c.Stat("order-family", "gsub4.1-shared-output")
+		case 4: // three sources, chain and shared target mixed
+			subs = append(subs, fmt.Sprintf("s2:3-2,2-1,1-0:%d,%d,%d", t, t, 3))
+			c.Stat("order-family", "gsub1.2-three-sources")
+		default: // alternates chain: 1 -> {t}, t -> {u}
+			u := r.Range(4, n-1)
+			subs = append(subs, fmt.Sprintf("al:%d-1,1-0:%d|%d|", max(t, 2), max(t, 2), u))
+			c.Stat("order-family", "gsub3.1-chain")
+		}
+	}
+	c.Stat("stream", "gsub-rule-order-matters")
+	line := fmt.Sprintf("kind=%s n=%d nn=%d names=%s cmap=- fu= gsub=%s", kind, n, n, gnHexNames(nms), strings.Join(subs, ";"))
+	if _, bad := gnFont(parseFields(line)); bad != "" {
+		c.Stat("case-rejected", bad)
+		return
+	}
+	gnEmit(c, kind, n, nms, line, true, r.Chance(1, 4))
+}
+
+// gnMacFamily: fonts whose ONLY cmap subtable is the Macintosh one (platform 1, encoding 0) in
+// format 0, 4 or 6, with MacRoman codes >= 0x80 as the only naming source of some glyphs.
+func gnMacFamily(c *Ctx) {
+	r := c.Rng
+	n := r.Range(3, 12)
+	kind := Pick(r, []string{"glyf", "glyf", "cff"})
+	nms := make([]string, n)
+	if kind == "glyf" && r.Bool() {
+		nms = nil
+	}
+	format := Pick(r, []string{"0", "4", "6"})
+	m := map[int]int{}
+	high := []int{0x8A, 0xA5, 0xDE, 0xDF, 0x80, 0xCA, 0xD0, 0xF5, 0xFF, 0xF0, 0xBD}
+	for g := 1; g < n; g++ {
+		var code int
+		switch r.Intn(4) {
+		case 0:
+			code = r.Range(0x41, 0x7A)
+		case 1:
+			code = r.Range(0x80, 0xFF)
+		default:
+			code = Pick(r, high)
+		}
+		if format == "6" { // keep the trimmed table short
+			code = 0x80 + r.Intn(0x30)
+		}
+		if _, ok := m[code]; !ok && r.Chance(4, 5) {
+			m[code] = g
+		}
+	}
+	if len(m) == 0 {
+		m[0x8A] = n - 1
+	}
+	keys := make([]int, 0, len(m))
+	hi := false
+	for k := range m {
+		keys = append(keys, k)
+		if k >= 0x80 {
+			hi = true
+		}
+	}
+	sort.Ints(keys)
+	var p, q []string
+	for _, k := range keys {
+		p = append(p, fmt.Sprintf("%d:%d", k, m[k]))
+		ru := mac.DecodeOne(byte(k))
+		q = append(q, fmt.Sprintf("%d:%s", ru, hex.EncodeToString([]byte(names.FromUnicode(string(ru))))))
+	}
+	c.Stat("mac-cmap-format", format)
+	if hi {
+		c.Stat("mac-cmap-codes", "some>=0x80")
+	} else {
+		c.Stat("mac-cmap-codes", "ascii-only")
+	}
+	c.Stat("stream", "mac-only-cmap")
+	line := fmt.Sprintf("kind=%s n=%d nn=%d names=%s cmap=%s mac=%s fu=%s gsub=", kind, n, len(nms), gnHexNames(nms), strings.Join(p, ","), format, strings.Join(q, ","))
 	if kind == "cff" && len(nms) != n {
 		return
 	}
@@ -1294,6 +1492,11 @@ func areaGNames(c *Ctx) {
 	gnEmit(c, "cff", 8, make([]string, 8), "kind=cff n=8 nn=8 names=,,,,,,, cmap=102:1,105:2,108:3 fu=102:66,105:69,108:6c gsub=lg:1-0:1,4>5/2>6/3>7|", true, true)
 	// GSUB 1.1 with delta -2 (variants stored before their bases) as the only source of names
 	gnEmit(c, "glyf", 6, nil, "kind=glyf n=6 nn=0 names= cmap=97:3,98:4,99:5 fu=97:61,98:62,99:63 gsub=s1:65534:3,4,5", true, false)
+	// rule order: two sources for one target; a chain through an unnamed glyph (GSUB 1.2)
+	gnEmit(c, "glyf", 5, []string{".notdef", "A", "a", "", ""}, "kind=glyf n=5 nn=5 names=2e6e6f74646566,41,61,, cmap=- fu= gsub=s2:2-1,1-0:3,3", true, false)
+	gnEmit(c, "glyf", 5, []string{".notdef", "a", "", "", ""}, "kind=glyf n=5 nn=5 names=2e6e6f74646566,61,,, cmap=- fu= gsub=s2:2-1,1-0:2,3", true, false)
+	// Macintosh-only cmap, format 0: 0x8A adieresis, 0xA5 bullet, 0xDE fi
+	gnEmit(c, "glyf", 4, nil, "kind=glyf n=4 nn=0 names= cmap=138:1,165:2,222:3 mac=0 fu=228:616469657265736973,8226:62756c6c6574,64257:6669 gsub=", true, false)
 	// the cmap is the only naming source: a single entry; first and last code of the range
 	gnEmit(c, "glyf", 2, nil, "kind=glyf n=2 nn=0 names= cmap=65:1 fu=65:41 gsub=", true, false)
 	gnEmit(c, "glyf", 4, nil, "kind=glyf n=4 nn=0 names= cmap=65:2,66:1,67:3 fu=65:41,66:42,67:43 gsub=", true, false)
@@ -1305,6 +1508,10 @@ func areaGNames(c *Ctx) {
 		switch {
 		case i%20 == 1:
 			gnCmapEdgeFamily(c)
+		case i%20 == 5:
+			gnOrderFamily(c)
+		case i%20 == 11:
+			gnMacFamily(c)
 		case i%20 == 3:
 			gnNegDeltaFamily(c)
 		case i%20 == 13:
